@@ -1,12 +1,11 @@
-\* random programs of up to 12 commands over the full menu (tlc -simulate);
-\* the check generates this file's twin at run time with Lat / AppendKw /
-\* KwPermitted set to what the backend under test exhibits
+\* random programs of <= 12 commands over the full menu (tlc -simulate -depth 25); the check
+\* sets Lat / AppendKw / KwPermitted to what the backend under test exhibits
 SPECIFICATION Spec
 CONSTANTS
   KwPermitted = FALSE
   Lat = {"lenient"}
   AppendKw = {"keep"}
-  Inits = {"std", "empty"}
+  Inits = {"empty", "std"}
   MaxCmds = 12
   MaxUid = 12
   Profile = "full"
@@ -14,5 +13,6 @@ CONSTANTS
 INVARIANT TypeOK
 INVARIANT UidsBelowNext
 INVARIANT NoRecentStored
+INVARIANT KwOnlyIfAllowed
 INVARIANT ContentHasOneDate
 CHECK_DEADLOCK FALSE
